@@ -21,6 +21,7 @@ const (
 )
 
 type Solver struct {
+	SlowHook func(d time.Duration, r SatResult)
 	cmd     *exec.Cmd
 	in      io.WriteCloser
 	out     *bufio.Reader
@@ -205,6 +206,9 @@ func (s *Solver) Check(extra ...*Term) SatResult {
 	res, _ := s.readUntilEnd()
 	s.Queries++
 	s.SolveTime += time.Since(t0)
+	if s.SlowHook != nil && time.Since(t0) > 3*time.Second {
+		s.SlowHook(time.Since(t0), res)
+	}
 	return res
 }
 
